@@ -61,7 +61,40 @@ def config(draw):
         base["ideal_fluid"] = {"table": draw(tables.table_spec(60, False)), "container": draw(st.sampled_from(["dict", "dataframe"]))}
     na = draw(st.integers(3, 25))
     nc = draw(st.integers(3, 25).filter(lambda v: v != na))
-    base["grids"] = {"A": grid(na), "B": grid(na), "C": grid(nc)}
+    A = grid(na)
+    # B and C are often *related* to A (shared end points, shared interior points, equal values, prefix, extension,
+    # subsample): what an incremental / warm-start / "grid unchanged?" shortcut would have to tell apart
+    mode_b = draw(st.sampled_from(["independent", "same-ends", "jitter-some", "equal", "same-ends"]))
+    if mode_b == "independent":
+        B = grid(na)
+    elif mode_b == "equal":
+        B = list(A)
+    elif mode_b == "same-ends":
+        w = sorted(draw(st.floats(0.0, 1.0)) for _ in range(na - 2))
+        B = [A[0]] + [A[0] + (A[-1] - A[0]) * (0.02 + 0.96 * (k + 1 + v) / na) for k, v in enumerate(w)] + [A[-1]]
+        B = [float(x) for x in np.maximum.accumulate(B)]
+    else:
+        B = list(A)
+        for k in range(1, na - 1):
+            if draw(st.booleans()):
+                B[k] = float(B[k - 1] + (A[k + 1] - B[k - 1]) * draw(st.floats(0.05, 0.95)))
+    mode_c = draw(st.sampled_from(["independent", "prefix", "extension", "subsample", "same-ends"]))
+    if mode_c == "prefix" and na > 3:
+        C = list(A[: draw(st.integers(3, na - 1))])
+    elif mode_c == "extension":
+        C = list(A) + [float(A[-1] + (k + 1) * draw(st.floats(1e-3, 2.0))) for k in range(draw(st.integers(1, 5)))]
+    elif mode_c == "subsample" and na >= 6:
+        C = list(A[::2])
+        if len(C) == na:
+            C = C[:-1]
+    elif mode_c == "same-ends":
+        C = [float(x) for x in np.linspace(A[0], A[-1], nc)]
+    else:
+        C = grid(nc)
+    if len(C) == na or len(C) < 3:
+        C = grid(nc)
+    base["grids"] = {"A": A, "B": B, "C": C}
+    base["grid_modes"] = [mode_b, mode_c]
     return base
 
 
@@ -301,6 +334,8 @@ def run_worker(ctx: core.WorkerContext):
             r.labels["len"] = len(self.history)
             r.labels["simulates"] = min(4, sum(1 for o in self.history if o[0] == "sim"))
             r.labels["has_length_change"] = len({len(self.cfg["grids"][o[1]]) for o in self.history if o[0] == "sim"}) > 1
+            r.labels["grid_B"] = self.cfg.get("grid_modes", ["?", "?"])[0]
+            r.labels["grid_C"] = self.cfg.get("grid_modes", ["?", "?"])[1]
             r.counts["steps"] = len(self.history)
             ctx.stats.record(case, r, keep_sample=state["generating"])
 
